@@ -34,6 +34,7 @@ import (
 	"path/filepath"
 	"sort"
 	"strings"
+	"sync"
 
 	"github.com/bufbuild/verifharness/internal/hx"
 )
@@ -298,7 +299,30 @@ func readDisk(root string) diskState {
 const nobodyUID = 65534
 
 // dropped: this job runs buf as `nobody` (only when the harness itself is root)
-func (j *writeJob) dropped() bool { return j.s.AsUser && os.Geteuid() == 0 }
+func (j *writeJob) dropped() bool { return j.s.AsUser && os.Geteuid() == 0 && canDropTo(j.root) }
+
+// canDropTo: `nobody` can only run buf when every directory on the way to the binary and the
+// scratch tree is searchable by it (a checkout under /root is not). Probed once with the real
+// binary; when it cannot, the jobs run as root and the read-only cases are those root itself
+// cannot open (none, normally) — the oracle follows canOpenForWrite either way.
+var (
+	dropOnce sync.Once
+	dropOK   bool
+	dropBin  string
+)
+
+func canDropTo(root string) bool {
+	dropOnce.Do(func() {
+		probe := filepath.Join(filepath.Dir(root), ".dropprobe")
+		if os.MkdirAll(probe, 0o755) != nil {
+			return
+		}
+		defer os.RemoveAll(probe)
+		_ = os.Lchown(probe, nobodyUID, nobodyUID)
+		dropOK = dropBin != "" && runBufAs(nobodyUID, dropBin, probe, "--version").exit == 0
+	})
+	return dropOK
+}
 
 func (j *writeJob) buf(bufBin, dir string, args ...string) procResult {
 	if j.dropped() {
@@ -475,6 +499,7 @@ func writeSpecs(run *hx.Run, r *hx.Rand) []writeSpec {
 
 func writePrepare(run *hx.Run, r *hx.Rand, startIdx int, bufBin, scratch string) family {
 	var jobs []*writeJob
+	dropBin = bufBin
 	specs := writeSpecs(run, r)
 	for i, s := range specs {
 		if idx := startIdx + i; selected(run, idx) {
